@@ -154,6 +154,9 @@ func (w *World) ifaceContract(recv types.Type, m *types.Func) *FuncContract {
 
 // resolveType resolves a textual spec type relative to a package.
 func (w *World) resolveType(te *STypeExpr, from *types.Package) (types.Type, string, error) {
+	if te.Raw != "" {
+		return nil, te.Raw, nil
+	}
 	if te.Slice {
 		et, _, err := w.resolveType(te.Elem, from)
 		if err != nil {
